@@ -9,6 +9,8 @@ package deferred
 // dcw.w == nil.
 
 //@ func (*DeferredCarWriter).writer
+//@   requires locked [C08]: held(dcw.lk) == 2
+//@   ensures still_locked [C08]: held(dcw.lk) == 2
 //@   modifies fx(dcw), dcw.w, dcw.f
 //@   effects require only_first_time [C20]: old(dcw.w) == nil
 //@   call[os.OpenFile#0] assert flags [C05,C20]: arg0 == dcw.outPath && arg1 == 577 && dcw.outStream == nil
